@@ -92,6 +92,9 @@ type Exec struct {
 	concCount    map[string]int
 
 	injectFailures bool
+	builtinStubs   map[string]string
+	hashSeq        int
+	hashMemo       map[string]string
 }
 
 func (e *Exec) callerIsInit() bool {
@@ -134,6 +137,8 @@ func (e *Exec) runPath(fn *ssa.Function, prefix []bool) {
 	e.loopSeen = map[string]int{}
 	e.concCount = map[string]int{}
 	e.symDecisions = 0
+	e.hashSeq = 0
+	e.hashMemo = map[string]string{}
 	e.nondet = 0
 	e.sol.Push()
 	defer e.sol.Pop()
@@ -375,6 +380,9 @@ func (e *Exec) fresh(name string, sort int) Term {
 // ---- calls ----
 
 func (e *Exec) call(fn *ssa.Function, args []Value) Value {
+	if b, ok := e.builtinStubs[fn.String()]; ok {
+		return e.builtinStub(b, fn, args)
+	}
 	if st, ok := e.stubs[fn.String()]; ok {
 		fn = st
 	}
@@ -1646,4 +1654,120 @@ func (e *Exec) runInits(pkgs []string) {
 		}
 	}
 	e.snapshotGlobals()
+}
+
+// builtinStub implements the "@..." stub targets of the job's stub table.
+//
+//	@hash:<name>:<n>   idealised hash: an uninterpreted function (per input length) of the
+//	                   input bytes, returning an [n]byte array
+//	@pred:<name>       uninterpreted predicate over all byte arguments (signature checks)
+func (e *Exec) builtinStub(spec string, fn *ssa.Function, args []Value) Value {
+	parts := strings.Split(spec, ":")
+	switch parts[0] {
+	case "@hash":
+		n := 0
+		fmt.Sscan(parts[2], &n)
+		out := e.hashTerm(parts[1], e.bytesOf(args[0]), n)
+		res := fn.Signature.Results().At(0).Type()
+		if _, ok := res.Underlying().(*types.Array); ok {
+			return VArray{out}
+		}
+		arr := newCell(typeByteArray(n))
+		for i := range out {
+			arr.Elems[i].V = out[i]
+		}
+		return VSlice{arr, 0, n, n}
+	case "@pred":
+		var all []Term
+		for _, a := range args {
+			all = append(all, e.bytesOf(a)...)
+		}
+		return VBool{e.predTerm(parts[1], all)}
+	}
+	e.fail("unknown builtin stub %s", spec)
+	return nil
+}
+
+// bytesOf flattens a []byte / [n]byte / string value into byte terms.
+func (e *Exec) bytesOf(v Value) []Term {
+	var out []Term
+	switch x := v.(type) {
+	case VSlice:
+		for i := 0; i < x.Len; i++ {
+			out = append(out, load(x.Arr.Elems[x.Off+i]).(VInt).T)
+		}
+	case VArray:
+		for _, el := range x.E {
+			out = append(out, el.(VInt).T)
+		}
+	case VStr:
+		for i := 0; i < len(x.S); i++ {
+			out = append(out, byteC(uint64(x.S[i])))
+		}
+	case VPtr:
+		return e.bytesOf(load(x.C))
+	case VSymSlice:
+		e.fail("hash of a slice with symbolic extent")
+	default:
+		e.fail("bytesOf %T", v)
+	}
+	return out
+}
+
+func (e *Exec) concatBytes(in []Term) (Term, int) {
+	if intMode {
+		e.fail("idealised hashes need the bv integer theory")
+	}
+	if len(in) == 0 {
+		return Term{}, 0
+	}
+	var sb strings.Builder
+	if len(in) == 1 {
+		return in[0], 8
+	}
+	sb.WriteString("(concat")
+	for _, t := range in {
+		sb.WriteString(" ")
+		sb.WriteString(t.S)
+	}
+	sb.WriteString(")")
+	return Term{S: sb.String(), Sort: 8 * len(in)}, 8 * len(in)
+}
+
+func (e *Exec) hashTerm(name string, in []Term, n int) []Value {
+	key := name
+	for _, t := range in {
+		key += " " + t.S
+	}
+	hv, seen := e.hashMemo[key]
+	if !seen {
+		e.hashSeq++
+		hv = fmt.Sprintf("h!%s!%d", name, e.hashSeq)
+		e.hashMemo[key] = hv
+		e.sol.Declare(hv, 8*n)
+	}
+	if seen {
+	} else if len(in) == 0 {
+		c := fmt.Sprintf("hash_%s_empty", name)
+		e.sol.Declare(c, 8*n)
+		e.sol.Assert(Eq(Term{S: hv, Sort: 8 * n}, Term{S: c, Sort: 8 * n}))
+	} else {
+		arg, w := e.concatBytes(in)
+		f := fmt.Sprintf("hash_%s_%d", name, len(in))
+		e.sol.DeclareFun(f, fmt.Sprintf("((_ BitVec %d)) (_ BitVec %d)", w, 8*n))
+		e.sol.Assert(Eq(Term{S: hv, Sort: 8 * n}, app(8*n, f, arg)))
+	}
+	out := make([]Value, n)
+	for i := 0; i < n; i++ {
+		hi := 8*(n-i) - 1
+		out[i] = VInt{app(8, fmt.Sprintf("(_ extract %d %d)", hi, hi-7), Term{S: hv, Sort: 8 * n})}
+	}
+	return out
+}
+
+func (e *Exec) predTerm(name string, in []Term) Term {
+	arg, w := e.concatBytes(in)
+	f := fmt.Sprintf("pred_%s_%d", name, len(in))
+	e.sol.DeclareFun(f, fmt.Sprintf("((_ BitVec %d)) Bool", w))
+	return app(SBool, f, arg)
 }
